@@ -266,7 +266,7 @@ void HttpMessage::readHeaders()
 			return;
 		}
 		headerName = line.substring(0, i);
-		headerValue = (i < line.length() - 1) ? line.substring(i + 2) : String();
+		headerValue = line.substring(i + 1).trim(); // optional whitespace after the colon: none, one or several
 		setHeader(headerName, headerValue);
 	}
 }
